@@ -227,7 +227,7 @@ Definition la_gate_post (t : tree) (g : globals) (cb : callback) (path : list N)
      go_res r = inl ECONF_PARSING_CALLBACK_FAILED /\ ~ In (EvOpen path) (go_events r)) /\
   (forall kf, go_res r = inr kf ->
      (exists n, fs_lstat t path = Some n /\ sec_ok (g_sec g) n = true) /\
-     In (EvOpen path) (go_events r) /\ kf_path kf = Some path /\
+     In (EvOpen path) (go_events r) /\ kf_path kf = Some (real_name t path) /\
      match cb with Some f => f path = true | None => True end /\
      rejected (go_events r) = false /\ opens_of (go_events r) = [path]) /\
   (go_res r = inl ECONF_NOFILE -> rejected (go_events r) = false /\ opens_of (go_events r) = []).
@@ -325,7 +325,7 @@ Theorem gate_events_corrected : forall t g cb o path dl cm,
   well_checked' (la_given cb) (go_events r) = true /\
   (forall kf, go_res r = inr kf ->
      exists n, fs_lstat t path = Some n /\ sec_ok (g_sec g) n = true /\
-               In (EvOpen path) (go_events r) /\ kf_path kf = Some path /\
+               In (EvOpen path) (go_events r) /\ kf_path kf = Some (real_name t path) /\
                match cb with Some f => f path = true | None => True end) /\
   (rejected (go_events r) = true -> go_res r = inl ECONF_PARSING_CALLBACK_FAILED /\
                                     ~ In (EvOpen path) (go_events r)).
@@ -344,7 +344,7 @@ Theorem gate_events_cb : forall t g cb o path dl cm, cb <> None ->
   well_checked (go_events r) = true /\
   (forall kf, go_res r = inr kf ->
      exists n, fs_lstat t path = Some n /\ sec_ok (g_sec g) n = true /\
-               In (EvOpen path) (go_events r) /\ kf_path kf = Some path /\
+               In (EvOpen path) (go_events r) /\ kf_path kf = Some (real_name t path) /\
                match cb with Some f => f path = true | None => True end) /\
   (rejected (go_events r) = true -> go_res r = inl ECONF_PARSING_CALLBACK_FAILED /\
                                     ~ In (EvOpen path) (go_events r)).
@@ -403,16 +403,16 @@ Definition la_fm_post (t : tree) (cb : callback) (g : globals) (evs : list event
   (rejected evs = false ->
      (rejected evs' = true -> res = inl CBF) /\
      (forall m, res = inr m -> rejected evs' = false /\
-        opens_of evs' = opens_of evs ++ match m with Some kf => [get_path kf] | None => [] end)).
+        map (real_name t) (opens_of evs') = map (real_name t) (opens_of evs) ++ match m with Some kf => [get_path kf] | None => [] end)).
 
 Definition la_rd_post (t : tree) (cb : callback) (g : globals) (evs : list event) (acc : list keyfile)
            (res : econf_err + list keyfile) (evs' : list event) (g' : globals) : Prop :=
   g_sec g' = g_sec g /\
   (well_checked' (la_given cb) evs = true -> well_checked' (la_given cb) evs' = true) /\
   (opened_ok t (g_sec g) evs = true -> opened_ok t (g_sec g) evs' = true) /\
-  (rejected evs = false -> map get_path acc = opens_of evs ->
+  (rejected evs = false -> map get_path acc = map (real_name t) (opens_of evs) ->
      (rejected evs' = true -> res = inl CBF) /\
-     (forall files, res = inr files -> rejected evs' = false /\ map get_path files = opens_of evs')).
+     (forall files, res = inr files -> rejected evs' = false /\ map get_path files = map (real_name t) (opens_of evs'))).
 
 (* a gate passage that fails ends the traversal *)
 Lemma la_abort_fm t g cb o p dl cm evs e :
@@ -481,7 +481,7 @@ Proof.
       intros NR. split.
       * rewrite la_rejected_app, NR, NRg. intros R; discriminate R.
       * intros m K. inversion K; subst m. split; [rewrite la_rejected_app, NR, NRg; reflexivity|].
-        rewrite la_opens_app, OPg. unfold get_path. rewrite P. reflexivity.
+        rewrite la_opens_app, map_app, OPg. unfold get_path. rewrite P. reflexivity.
 Qed.
 
 Lemma la_read_names t cb o dir sfx dl cm : forall names g acc evs res evs' g',
@@ -508,7 +508,7 @@ Proof.
       split; [intros W; apply K3; rewrite la_opened_ok_app, W, H2; reflexivity|].
       intros NR MP. apply K4.
       * rewrite la_rejected_app, NR, NRg; reflexivity.
-      * rewrite map_app, MP, la_opens_app, OPg. cbn [map]. unfold get_path. rewrite P. reflexivity.
+      * rewrite map_app, MP, la_opens_app, map_app, OPg. cbn [map]. unfold get_path. rewrite P. reflexivity.
 Qed.
 
 Lemma la_read_dropins t cb o name sfx dl cm : forall dirs g acc evs res evs' g',
@@ -540,7 +540,7 @@ Definition la_hist_post (t : tree) (cb : callback) (g : globals) (h : hist_out) 
   (rejected (ho_events h) = true -> ho_res h = inl CBF) /\
   (forall files, ho_res h = inr files ->
      rejected (ho_events h) = false /\
-     map (fun kf => Some (get_path kf)) files = map Some (opens_of (ho_events h)) /\
+     map (fun kf => Some (get_path kf)) files = map (fun p => Some (real_name t p)) (opens_of (ho_events h)) /\
      files <> []).
 
 Lemma la_wc'_nil c : well_checked' c [] = true.
@@ -562,7 +562,7 @@ Proof.
     as [[res evs'] g2] eqn:RD.
   apply la_read_dropins in RD. destruct RD as (K1 & K2 & K3 & K4).
   rewrite F1 in K3.
-  assert (MP : map get_path (match m with Some kf => [kf] | None => [] end) = opens_of evs)
+  assert (MP : map get_path (match m with Some kf => [kf] | None => [] end) = map (real_name t) (opens_of evs))
     by (rewrite F7; destruct m; reflexivity).
   destruct (K4 F6 MP) as [K5 K6].
   destruct res as [e|files]; [|destruct files as [|f files]]; unfold la_hist_post; cbn [ho_res ho_events].
@@ -573,7 +573,7 @@ Proof.
   - destruct (K6 (f :: files) eq_refl) as [K7 K8].
     split; [auto|]. split; [auto|]. split; [intros R; rewrite R in K7; discriminate K7|].
     intros files' K. inversion K; subst files'. split; [exact K7|]. split; [|discriminate].
-    rewrite <- K8, map_map. reflexivity.
+    rewrite <- (map_map (real_name t) Some), <- K8, map_map. reflexivity.
 Qed.
 
 Lemma la_history_facts t g cb o parse_dirs conf_dirs name sfx dl cm :
@@ -619,7 +619,7 @@ Theorem history_events_corrected : forall t g cb o parse_dirs conf_dirs name sfx
   (rejected (ho_events h) = true -> ho_res h = inl ECONF_PARSING_CALLBACK_FAILED) /\
   (forall files, ho_res h = inr files ->
      rejected (ho_events h) = false /\
-     map (fun kf => Some (get_path kf)) files = map Some (opens_of (ho_events h)) /\
+     map (fun kf => Some (get_path kf)) files = map (fun p => Some (real_name t p)) (opens_of (ho_events h)) /\
      files <> []).
 Proof. intros. exact (la_history_facts t g cb o parse_dirs conf_dirs name sfx dl cm). Qed.
 
@@ -631,7 +631,7 @@ Theorem history_events_cb : forall t g cb o parse_dirs conf_dirs name sfx dl cm,
   (rejected (ho_events h) = true -> ho_res h = inl ECONF_PARSING_CALLBACK_FAILED) /\
   (forall files, ho_res h = inr files ->
      rejected (ho_events h) = false /\
-     map (fun kf => Some (get_path kf)) files = map Some (opens_of (ho_events h)) /\
+     map (fun kf => Some (get_path kf)) files = map (fun p => Some (real_name t p)) (opens_of (ho_events h)) /\
      files <> []).
 Proof.
   intros t g cb o parse_dirs conf_dirs name sfx dl cm NE. destruct cb as [f|]; [|contradiction].
